@@ -399,6 +399,9 @@ func (x *Explorer) vassert(c *Term, label string) {
 		if r := x.feasible(nc); r == "sat" {
 			x.report("assert", label, "", "assertion can fail", nc)
 		} else if r == "unknown" {
+			if os.Getenv("VERIF_DEBUG") != "" {
+				fmt.Fprintf(os.Stderr, "DEBUG unknown on assertion %q in %s\n", label, x.name)
+			}
 			x.sh.mu.Lock()
 			x.sh.Inconclusive++
 			x.sh.mu.Unlock()
